@@ -446,7 +446,7 @@ func ruleRecover(p *Program, r *Reporter) {
 		return
 	}
 	var runCall ssa.CallInstruction
-	for _, c := range callsTo(a.execute, a.vmRun) {
+	for _, c := range callsTo(a.execute, a.vmEntry) {
 		runCall = c
 	}
 	if runCall == nil {
@@ -489,6 +489,40 @@ func ruleRecover(p *Program, r *Reporter) {
 							}
 						}
 						setsBoth = nres >= 2 && n >= 2
+						if !setsBoth {
+							// a named clean-up function that is handed the addresses of
+							// the two results: stores through its pointer parameters
+							pres, pn := 0, 0
+							for _, prm := range body.Params {
+								pt, ok := prm.Type().Underlying().(*types.Pointer)
+								if !ok || !(isObjectIface(pt.Elem()) || isErrorType(pt.Elem())) {
+									continue
+								}
+								pres++
+								for _, ref := range *prm.Referrers() {
+									if st, ok := ref.(*ssa.Store); ok && st.Addr == ssa.Value(prm) {
+										pn++
+										break
+									}
+								}
+							}
+							// … and the deferring call passes the addresses of Execute's own results
+							handsResults := false
+							for _, eb := range a.execute.Blocks {
+								for _, ei := range eb.Instrs {
+									if d, ok := ei.(*ssa.Defer); ok && d.Call.StaticCallee() == body {
+										cnt := 0
+										for _, arg := range d.Call.Args {
+											if al, ok := arg.(*ssa.Alloc); ok && (isObjectIface(deref(al.Type())) || isErrorType(deref(al.Type()))) {
+												cnt++
+											}
+										}
+										handsResults = cnt >= 2
+									}
+								}
+							}
+							setsBoth = pres >= 2 && pn >= 2 && handsResults
+						}
 					}
 				}
 			}
@@ -1161,7 +1195,50 @@ func typeRuledOut(v ssa.Value, b *ssa.BasicBlock, t types.Type) bool {
 	if v.Referrers() == nil {
 		return false
 	}
-	for _, ref := range *v.Referrers() {
+	// the same field of the same struct value read twice is one value
+	var refs []ssa.Instruction
+	refs = append(refs, *v.Referrers()...)
+	if f, ok := v.(*ssa.Field); ok && f.X.Referrers() != nil {
+		for _, r0 := range *f.X.Referrers() {
+			if f2, ok := r0.(*ssa.Field); ok && f2 != f && f2.Field == f.Field && f2.Referrers() != nil {
+				refs = append(refs, *f2.Referrers()...)
+			}
+		}
+	}
+	if ld, ok := v.(*ssa.UnOp); ok && ld.Op == token.MUL {
+		// … and so is a field of a local that is assigned once
+		if fa, ok := ld.X.(*ssa.FieldAddr); ok {
+			if al, ok := fa.X.(*ssa.Alloc); ok && al.Referrers() != nil {
+				stores := 0
+				for _, r0 := range *al.Referrers() {
+					if st, ok := r0.(*ssa.Store); ok && st.Addr == ssa.Value(al) {
+						stores++
+					}
+				}
+				if stores <= 1 {
+					for _, r0 := range *al.Referrers() {
+						if fa2, ok := r0.(*ssa.FieldAddr); ok && fa2.Field == fa.Field && fa2.Referrers() != nil {
+							onlyLoads := true
+							for _, r1 := range *fa2.Referrers() {
+								if _, isSt := r1.(*ssa.Store); isSt {
+									onlyLoads = false
+								}
+							}
+							if !onlyLoads {
+								continue
+							}
+							for _, r1 := range *fa2.Referrers() {
+								if l2, ok := r1.(*ssa.UnOp); ok && l2 != ld && l2.Referrers() != nil {
+									refs = append(refs, *l2.Referrers()...)
+								}
+							}
+						}
+					}
+				}
+			}
+		}
+	}
+	for _, ref := range refs {
 		ta, ok := ref.(*ssa.TypeAssert)
 		if !ok || !ta.CommaOk || !types.Identical(ta.AssertedType, t) {
 			continue
@@ -1525,9 +1602,8 @@ func ruleLogicDispatch(p *Program, r *Reporter) {
 	if a == nil {
 		return
 	}
-	fd := p.FuncDecl(a.binop)
-	info := p.Info(a.binop)
-	opObj := types.Object(a.binop.Signature.Params().At(0))
+	bv := binopView(p, a)
+	fd, info, opObj := bv.fd, bv.info, bv.opObj
 	var sw *ast.SwitchStmt
 	ast.Inspect(fd.Body, func(n ast.Node) bool {
 		if s, ok := n.(*ast.SwitchStmt); ok && s.Tag == nil && sw == nil {
@@ -1785,7 +1861,7 @@ func ruleTruthSites(p *Program, r *Reporter) {
 	}
 	// (2) the logic clauses of the dispatcher call True() on both operands
 	nTrue := 0
-	for _, b := range a.binop.Blocks {
+	for _, b := range binopView(p, a).fn.Blocks {
 		for _, ins := range b.Instrs {
 			if c, ok := ins.(*ssa.Call); ok && c.Call.IsInvoke() && c.Call.Method.Name() == "True" {
 				nTrue++
@@ -2514,7 +2590,7 @@ func ruleCtxFlow(p *Program, r *Reporter) {
 	r.Check(good && len(setCalls) > 0, "Prepare hands the evaluator's context to the machine", p.Pos(a.prepare.Pos()), "SetContext(e.context) follows vm.New on every successful path", "Prepare can succeed without giving the machine the context set with SetContext: the deadline is silently ignored")
 	// the machine the context is given to is the one stored in Eval.machine
 	// and the one Execute runs
-	r.Check(len(callsTo(a.execute, a.vmRun)) == 1, "Execute runs the prepared machine", p.Pos(a.execute.Pos()), "", "Execute does not run the machine exactly once")
+	r.Check(len(callsTo(a.execute, a.vmEntry)) == 1, "Execute runs the prepared machine", p.Pos(a.execute.Pos()), "", "Execute does not run the machine exactly once")
 	// every context the evaluator installs in the machine is the host's, or is
 	// derived from the host's and taken back on every exit
 	isHostCtx := func(v ssa.Value, fn *ssa.Function) bool {
